@@ -167,6 +167,12 @@ func loadAll(pkgDirs []string) (*loaded, error) {
 		}
 	}
 	eng.files = ld.files
+	eng.knownFailing = map[string]bool{}
+	for _, k := range loadKnown() {
+		if k.Status == "known" {
+			eng.knownFailing[k.Obligation] = true
+		}
+	}
 	ld.eng = eng
 	// register the heap components of every named struct type of the repository packages,
 	// so that "the object behind an interface" ranges over a fixed key universe
